@@ -19,6 +19,7 @@ mod c29;
 mod c30;
 mod c31;
 mod c34;
+mod c35;
 
 fn main() {
     let args: Vec<String> = std::env::args().skip(1).collect();
@@ -72,6 +73,7 @@ fn main() {
         "c31-child" => c31::child(rest),
         "c31-drive" => c31::drive(rest),
         "c34-replay" => c34::replay(rest),
+        "c35-run" => c35::run(rest),
         _ => {
             eprintln!("unknown command {cmd}");
             std::process::exit(2);
